@@ -244,6 +244,9 @@ def defects(rng, rows, model):
         if kind != "fixed":
             for bad in ("abc", "1...x", "1 2", "..."):
                 yield "malformed-length", variant(i, setcell(4, bad)), i + 1, None
+            for bad in ("2.5", "0.5...1.5", "1e1", "1...2.0"):
+                # a length is a number of characters: fractions are malformed for every type
+                yield "fractional-length:%s" % ftype, variant(i, setcell(4, bad)), i + 1, None
             for bad in ("-1", "-3...5", "...-1"):
                 if ftype == "Constant":
                     continue  # the constant's own length check answers first, still at this row
@@ -254,6 +257,8 @@ def defects(rng, rows, model):
                 yield "fixed-length-range:%s" % ftype, variant(i, setcell(4, bad)), i + 1, None
             for bad in ("0", "-2"):
                 yield "fixed-length-below-one:%s" % ftype, variant(i, setcell(4, bad)), i + 1, None
+            for bad in ("2.5", "1.5", "1e1"):
+                yield "fractional-length:%s" % ftype, variant(i, setcell(4, bad)), i + 1, None
         bad_rules = {"Integer": ["abc", "1...x", "5...1", "1.5...2"], "Decimal": ["x", "1...y", "'a'"], "Choice": ["a,,b", "a,", ",a", "a b"],
                      "Constant": ["a b", "a, b"]}.get(ftype, [])
         for bad in bad_rules:
